@@ -202,15 +202,23 @@ def judge(project, clo, man, log, root):
         if c > 1:
             return ('recursed-twice', f'[{tag}] {m} {k} processed {c} times in file-graph recursion')
     modules_of = {name_scope(k) for k in allnodes}
+    by_name = {pr.name: pr.item for pr in project.procs}
     for e in inner:
         k = e[2]
         if k is None:
             continue
+        via = ''
+        if any(k.endswith(f) for f in lower_files):
+            # Transformation.apply_file falls back to "everything in the file" with the file item when the
+            # scheduler hands it an empty item list: judge the routine that was actually transformed
+            if e[0] != 'sub' or e[1] not in by_name:
+                continue
+            k, via = by_name[e[1]], ' via-file-fallback'
         if k not in allnodes and k not in modules_of:
-            return (f'recursed-unexpected {"known-item" if k in project.items else "unknown-item"}',
+            return (f'recursed-unexpected {"known-item" if k in project.items else "unknown-item"}{via}',
                     f'[{tag}] recursion reached {k}, which is not part of the dependency graph')
         if not man['ignored'] and clo.ignored.get(k) is True:
-            return ('recursed-ignored', f'[{tag}] recursion processed ignored item {k}')
+            return (f'recursed-ignored{via}', f'[{tag}] recursion processed ignored item {k}')
     return None
 
 
